@@ -20,7 +20,7 @@ from __future__ import annotations
 import ast
 
 from ..repo import AnalysisError, own_nodes
-from .common import resolve_root, is_empty_list
+from .common import resolve_root, is_empty_list, source_pos
 
 MANIFEST = {
     "text": (
@@ -250,17 +250,18 @@ def _makespan_shape(ctx, mk):
         return
     new = store[0].value
     new_e = _expand(ctx, upd, new)
+    pos = source_pos(upd.node)
     old_names = {
         t.id for n in own_nodes(upd.node) if isinstance(n, ast.Assign) and ast.unparse(n.value) == "self.current_makespan"
-        and n.lineno < store[0].lineno for t in n.targets if isinstance(t, ast.Name)
+        and pos(n) < pos(store[0]) for t in n.targets if isinstance(t, ast.Name)
     }
 
     def is_old(e):
         return (isinstance(e, ast.Name) and e.id in old_names) or False
 
-    def is_new(e, lineno):
+    def is_new(e, at):
         t = ast.unparse(e)
-        return t == "self.current_makespan" and lineno > store[0].lineno
+        return t == "self.current_makespan" and at > pos(store[0])
 
     # new = max(old, sop.end_time)
     if not (isinstance(new_e, ast.Call) and isinstance(new_e.func, ast.Name) and new_e.func.id in ("max", "min") and len(new_e.args) == 2):
@@ -282,8 +283,8 @@ def _makespan_shape(ctx, mk):
         raise AnalysisError(f"MakespanReward.update: reward `{ast.unparse(val)}` not recognised")
     l, r = val.left, val.right
     l_old = is_old(l)
-    r_new = is_new(r, app[0].lineno) or ast.unparse(_expand(ctx, upd, r)) == ast.unparse(new_e)
-    l_new = is_new(l, app[0].lineno) or ast.unparse(_expand(ctx, upd, l)) == ast.unparse(new_e)
+    r_new = is_new(r, pos(app[0])) or ast.unparse(_expand(ctx, upd, r)) == ast.unparse(new_e)
+    l_new = is_new(l, pos(app[0])) or ast.unparse(_expand(ctx, upd, l)) == ast.unparse(new_e)
     r_old = is_old(r)
     if l_old and r_new:
         chk.ok("R13.c", upd.qualname, upd.loc(app[0]), "reward = previous makespan - max(previous, scheduled end)")
@@ -326,9 +327,9 @@ def _idle_shape(ctx, it):
     for d in defs:
         d = _expand(ctx, upd, d)
         t = ast.unparse(d)
-        if t == f"{sop}.start_time":
+        if ctx.norm.xtext(upd, d) == f"{sop}.start_time":
             continue
-        if isinstance(d, ast.BinOp) and isinstance(d.op, ast.Sub) and ast.unparse(d.left) == f"{sop}.start_time":
+        if isinstance(d, ast.BinOp) and isinstance(d.op, ast.Sub) and ctx.norm.xtext(upd, d.left) == f"{sop}.start_time":
             saw_gap = True
             prev = _expand(ctx, upd, d.right)
             pt = ast.unparse(prev)
@@ -374,7 +375,7 @@ def _idle_shape(ctx, it):
                         chk.violation("R13.d", upd, prev, f"the machine's release time is read at `{idx}`, not at the scheduled machine", loc=upd.loc(app[0]))
                 else:
                     raise AnalysisError(f"IdleTimeReward.update: idle reference `{pt}` not recognised")
-        elif isinstance(d, ast.BinOp) and isinstance(d.op, ast.Sub) and ast.unparse(d.right) == f"{sop}.start_time":
+        elif isinstance(d, ast.BinOp) and isinstance(d.op, ast.Sub) and ctx.norm.xtext(upd, d.right) == f"{sop}.start_time":
             ok = False
             chk.violation("R13.d", upd, d, "idle time is (previous end - start): the reward is positive", loc=upd.loc(app[0]))
         else:
